@@ -32,7 +32,8 @@ QGRAM_TOKS = [2, 3]
 FILTER_POOL = [("position", 0, "COSINE", 0.5), ("prefix", 2, "JACCARD", 0.6),
                ("size", 0, "DICE", 0.7), ("suffix", 0, "JACCARD", 0.5),
                ("overlap", 1, "OVERLAP", 2), ("position", 3, "EDIT_DISTANCE", 1),
-               ("prefix", 3, "EDIT_DISTANCE", 2)]
+               ("prefix", 3, "EDIT_DISTANCE", 2), ("suffix", 0, "COSINE", 0.7),
+               ("suffix", 3, "EDIT_DISTANCE", 1), ("size", 3, "EDIT_DISTANCE", 1)]
 SET_MEASURES = ["JACCARD", "COSINE", "DICE", "OVERLAP_COEFFICIENT", "OVERLAP"]
 WORDS = ["ab", "ba", "abb", "a", "b,a", "bab"]
 
@@ -484,4 +485,134 @@ class Interference(Component):
         ctx.label("interference:%s:%s" % (case["family"], case["entry"]))
 
 
-COMPONENTS = [Stateful(), Interference()]
+def _reuse_configs():
+    out = []
+    for ft in ("size", "prefix", "position", "suffix"):
+        for q in (1, 2, 3):
+            for pad in (True, False):
+                for t in (1, 2, 3):
+                    out.append([ft, "EDIT_DISTANCE", q, pad, t, "<="])
+        for m in ("JACCARD", "COSINE", "DICE"):
+            for t in (0.3, 0.5, 0.7, 0.8, 0.9):
+                out.append([ft, m, None, None, t, ">="])
+        for t in (1, 2, 3):
+            out.append([ft, "OVERLAP", None, None, t, ">="])
+    for t in (1, 2, 3, 4):
+        for op in (">=", ">", "="):
+            out.append(["overlap", "OVERLAP", None, None, t, op])
+    return out
+
+
+class ObjectReuse(Component):
+    """One long-lived filter object answers filter_pair for every value pair of a table in two
+    different orders, then filter_candset and filter_tables; every answer is compared with the
+    answer of a filter object created for that single call.  Data: token sets of 1..12 tokens
+    in several windows of a 14-token universe (every size split occurs, including the skewed
+    ones) and all strings over {a,b} up to length 4 plus longer periodic strings.  Targets
+    per-object caches keyed by an incomplete set of the quantities a verdict depends on."""
+    name = "object-reuse"
+    kind = "enum"
+    exhaustive = True
+    rule = "every (filter, measure, tokenizer configuration, threshold) cell; >=1 pair kept and >=1 dropped"
+
+    def bounds(self, tier):
+        return {"cells": len(_reuse_configs()), "set_values": len(self.values("set")),
+                "ed_values": len(self.values("ed"))}
+
+    def shards(self, tier):
+        return 16
+
+    def budget_s(self, tier):
+        return 240 if tier == "quick" else 1200
+
+    def cases(self, tier):
+        for c in _reuse_configs():
+            yield {"cfg": c}
+
+    @staticmethod
+    def values(fam):
+        if fam == "ed":
+            from . import c03
+            strs, _ = c03.e3_table("ab", 4)
+            return list(strs) + ["aaabbbaaa", "aaababbaaa", "abababab", "bbbbbbbb", "bbbbbbbbbb",
+                                 "abaabbbb", "ababababab", "aabbaabbaabb", "similarity join",
+                                 "similarity joins", "university of wisconsin"]
+        names = ["t%02d" % i for i in range(14)]
+        vals = [""]
+        for size in range(1, 13):
+            for off in (0, 3, 7):
+                vals.append(" ".join(names[(off + i) % 14] for i in range(size)))
+        return vals
+
+    @staticmethod
+    def make(ctx, cfg):
+        ft, m, q, pad, t, op = cfg
+        if m == "EDIT_DISTANCE":
+            tok = mk_tok({"kind": "qgram", "q": q, "padding": pad, "return_set": False})
+        else:
+            tok = mk_tok({"kind": "ws", "return_set": True})
+        return calls.make_filter(ctx, {"type": ft, "measure": m, "threshold": t, "op": op}, tok)
+
+    def check(self, case, ctx):
+        cfg = case["cfg"]
+        ft, m = cfg[0], cfg[1]
+        vals = self.values("ed" if m == "EDIT_DISTANCE" else "set")
+        n = len(vals)
+        pairs = [(i, j) for i in range(n) for j in range(n)]
+        want = {}
+        for i, j in pairs:
+            f = self.make(ctx, cfg)
+            want[(i, j)] = None if f is None else ctx.lib(f.filter_pair, vals[i], vals[j])
+        shared = self.make(ctx, cfg)
+        if shared is None:
+            return
+        name = "shared-%s-object" % ft
+        desc = "%s(%s, %r%s) q=%r padding=%r" % (FILTER_NAMES[ft], m, cfg[4],
+                                                  ", " + cfg[5] if ft == "overlap" else "",
+                                                  cfg[2], cfg[3])
+        N = len(pairs)
+        orders = [pairs, [pairs[(k * 7919 + 13) % N] for k in range(N)] if N % 7919 else pairs[::-1],
+                  pairs[::-1]]
+        for o, order in enumerate(orders):
+            for i, j in order:
+                got = ctx.lib(shared.filter_pair, vals[i], vals[j])
+                if got is not None and want[(i, j)] is not None and \
+                        bool(got) != bool(want[(i, j)]):
+                    ctx.violation("kind=result-depends-on-history,call=%s.filter_pair" % name,
+                                  "%s: one filter object asked about all %d value pairs (order "
+                                  "%d) answers filter_pair(%r, %r) = %r; a filter object created "
+                                  "for this call alone answers %r"
+                                  % (desc, N, o, vals[i], vals[j], got, want[(i, j)]))
+        T = pd.DataFrame({"id": list(range(n)), "v": pd.Series(vals, dtype=object)})
+        C = pd.DataFrame({"_id": list(range(N)), "l_id": [p[0] for p in orders[1]],
+                          "r_id": [p[1] for p in orders[1]]})
+        keep = set(k for k, v in want.items() if v is not None and not v)
+        for nj in (1, 3):
+            with calls.backend(nj):
+                out = ctx.lib(shared.filter_candset, C, "l_id", "r_id", T, T, "id", "id", "v", "v",
+                              n_jobs=nj, show_progress=False)
+            if out is not None:
+                got = set(zip(out["l_id"].tolist(), out["r_id"].tolist()))
+                if got != keep:
+                    d = sorted(got ^ keep)[:3]
+                    ctx.violation("kind=result-depends-on-history,call=%s.filter_candset" % name,
+                                  "%s: filter_candset (n_jobs=%d) of a filter object used before "
+                                  "disagrees with single-use filter objects on value pairs %r"
+                                  % (desc, nj, [(vals[a], vals[b]) for a, b in d]))
+        out = ctx.lib(shared.filter_tables, T, T, "id", "id", "v", "v", show_progress=False)
+        fresh = self.make(ctx, cfg)
+        ref = None if fresh is None else ctx.lib(fresh.filter_tables, T, T, "id", "id", "v", "v",
+                                                 show_progress=False)
+        if out is not None and ref is not None:
+            g = collections.Counter(canon.rows_of(out.iloc[:, 1:]))
+            w = collections.Counter(canon.rows_of(ref.iloc[:, 1:]))
+            if g != w:
+                ctx.violation("kind=result-depends-on-history,call=%s.filter_tables" % name,
+                              "%s: filter_tables of a filter object used before differs from a "
+                              "new object's: only used %r, only new %r"
+                              % (desc, list((g - w).items())[:3], list((w - g).items())[:3]))
+        ctx.nontrivial(bool(keep) and len(keep) < N)
+        ctx.label("object-reuse:%s:%s" % (ft, m))
+
+
+COMPONENTS = [Stateful(), Interference(), ObjectReuse()]
